@@ -23,7 +23,7 @@ type fileOp struct {
 }
 
 type faultSpec struct {
-	Kind      string // write | shortwrite | sync | stat | open | truncate
+	Kind      string // write | shortwrite | sync | stat | open | truncate | osfile
 	File      string // "" = any
 	OffLo     int64  // write offset range, inclusive / exclusive; OffHi 0 = any
 	OffHi     int64
@@ -128,7 +128,14 @@ type recFile struct {
 	name string
 }
 
-func (f *recFile) OsFile() *os.File { return f.f }
+// OsFile is only asked for by Footer.doLoadSegments (Stat + mmap of the new segments go through the
+// *os.File): a fault of kind "osfile" makes that load fail - the stand-in for a failing Stat/mmap there.
+func (f *recFile) OsFile() *os.File {
+	if f.r.shouldFail("osfile", f.name, 0, 0) {
+		return nil
+	}
+	return f.f
+}
 
 func (f *recFile) ReadAt(p []byte, off int64) (int, error) { return f.f.ReadAt(p, off) }
 
